@@ -155,6 +155,186 @@ Definition WindowSpec (limit : nat) (l : log) (a : N) (window : option (log * N)
   forall evs from, window = Some (evs, from) ->
     cut_point l a = Some from /\ exists keep, admissible_input keep limit l from evs.
 
+
+(* ================================================================== the compiler's checkpoint look-ups through the caches *)
+(* latest_compaction_checkpoint_for_compile_v1 / hierarchical_compaction_checkpoints_for_compile_v1 (continuities.rs) over
+   `.comp.v1.jsonl` and `.comp.idx.v1.jsonl` AS FOUND (continuity_stream_cache.rs
+   latest_compaction_checkpoint_before_or_at_seq_v1, hierarchical_compaction_checkpoints_before_or_at_seq_v1,
+   compaction_checkpoint_caches_behind_head_v1; compaction_checkpoint_index.rs load_index_v1,
+   rebuild_index_from_compaction_sidecar_v1).  A line of the index is the checkpoint frame its entry was written from. *)
+
+(* ensure_compaction_checkpoints_sidecar_best_effort_v1: as found, or built from the full sidecar's checkpoint lines
+   (nothing written when there is none).  None = Err *)
+Definition comp_effective (comp full : cfile) : option cfile :=
+  match comp with
+  | Some ls => Some (Some ls)
+  | None =>
+    match full with
+    | None => Some None
+    | Some fl =>
+      match all_good_c fl with
+      | Some fs => Some (match filter is_ckpt fs with [] => None | x => Some (map CGood x) end)
+      | None => None
+      end
+    end
+  end.
+
+(* the reader's own fold (the scan hands the frames over latest first): larger to_seq wins, on a tie the larger seq *)
+Definition better (c b : ckpt) : bool :=
+  (ck_to b <? ck_to c) || ((ck_to b =? ck_to c) && (ck_seq b <? ck_seq c)).
+Definition latest_step_cache (fixed : bool) (from : N) (best : option ckpt) (f : frame) : option ckpt :=
+  match ckpt_of f with
+  | Some c =>
+    if eligible fixed from c then
+      match best with None => Some c | Some b => if better c b then Some c else Some b end
+    else best
+  | None => best
+  end.
+
+Inductive lres := LErr | LNone | LSome (c : ckpt).
+(* `me` = the bound of the one backward scan, in lines; a scan that does not reach the start refuses to answer *)
+Definition latest_cache (fixed : bool) (me : nat) (comp full : cfile) (from : N) : lres :=
+  match comp_effective comp full with
+  | None => LErr
+  | Some None => LNone
+  | Some (Some ls) =>
+    match scan_lines me ls with
+    | ScErr => LErr
+    | ScTail evs cpl =>
+      if cpl then match fold_left (latest_step_cache fixed from) (rev evs) None with Some c => LSome c | None => LNone end
+      else LErr
+    end
+  end.
+
+(* load_index_v1: every line parses, at least one entry, seqs do not decrease.  None = Err *)
+Fixpoint mono_from (b : N) (fs : log) : bool :=
+  match fs with [] => true | f :: r => (b <=? fseq f) && mono_from (fseq f) r end.
+Definition idx_load (es : list cline) : option log :=
+  match all_good_c es with
+  | Some [] => None
+  | Some fs => if mono_from 0 fs then Some fs else None
+  | None => None
+  end.
+(* rebuild_index_from_compaction_sidecar_v1 (errors ignored by its callers): every line of the checkpoint sidecar must
+   parse and be a checkpoint; nothing to write => the index file is removed; a failure leaves the index as it was *)
+Definition idx_rebuild (cl : list cline) (idx : cfile) : cfile :=
+  match all_good_c cl with
+  | Some fs => if forallb is_ckpt fs then (match fs with [] => None | _ => Some (map CGood fs) end) else idx
+  | None => idx
+  end.
+
+Inductive hres := HErr | HNone | HSome (entries : log).
+Definition hier_cache (comp full idx : cfile) : hres :=
+  let ensured : option cfile :=                     (* ensure_compaction_checkpoints_index_best_effort_v1; None = Err *)
+    match idx with
+    | Some es => Some (Some es)
+    | None => match comp_effective comp full with
+              | None => None
+              | Some None => Some None
+              | Some (Some cl) => Some (idx_rebuild cl None)
+              end
+    end in
+  match ensured with
+  | None => HErr
+  | Some None => HNone
+  | Some (Some es) =>
+    match idx_load es with
+    | Some fs => HSome fs
+    | None =>
+      match comp_effective comp full with
+      | None => HErr
+      | Some None => HNone
+      | Some (Some cl) =>
+        match idx_rebuild cl (Some es) with
+        | Some es' => match idx_load es' with Some fs => HSome fs | None => HErr end
+        | None => HSome []                          (* load: Ok(None).unwrap_or_default() *)
+        end
+      end
+    end
+  end.
+
+(* compaction_checkpoint_caches_behind_head_v1 *)
+Definition last_good_seq (ls : list cline) : option N :=
+  match last ls CBad with CGood g => Some (fseq g) | CBad => None end.
+Definition caches_behind_head (full comp idx : cfile) : bool :=
+  match head_of full with
+  | Some h =>
+    is_ckpt h &&
+    ((match comp with
+      | Some ls => negb (match last_good_seq ls with Some s => fseq h <=? s | None => false end)
+      | None => false
+      end)
+     || (match idx with
+         | Some es => negb (match idx_load es with Some fs => existsb (fun e => fseq h <=? fseq e) fs | None => false end)
+         | None => false
+         end))
+  | None => false
+  end.
+
+(* `if let Ok(Some(..)) = cached { return .. }`, else replay_events + the truth loop *)
+Definition latest_for_compile (fixed : bool) (me : nat) (full comp idx : cfile) (l : log) (from : N) : option ckpt :=
+  match (if caches_behind_head full comp idx then LNone else latest_cache fixed me comp full from) with
+  | LSome c => Some c
+  | _ => latest_any fixed from l
+  end.
+Definition hier_for_compile (fixed : bool) (levels : nat) (full comp idx : cfile) (l : log) (from : N) : list ckpt :=
+  match (if caches_behind_head full comp idx then HNone else hier_cache comp full idx) with
+  | HSome es => hierarchy fixed from levels es
+  | _ => hierarchy fixed from levels l
+  end.
+
+(* compile_context_bundle_for_run with the two look-ups handed in (Compile.compile_with computes them from one source) *)
+Definition compile_core (P : params) (texts : N -> N) (evs : log) (h : list ckpt) (lat : option ckpt)
+           (from anchor : N) : decision * bundle :=
+  let ended := ended_runs from evs [] in
+  match h with
+  | [] =>
+    let cr := match lat with
+              | Some c => if ck_cum c then (1, 0) else (2, 1)
+              | None => (0, 0)
+              end in
+    ({| d_strategy := 0; d_cause := fst cr; d_resets := snd cr; d_ckpts := [] |},
+     {| b_strategy := 0; b_from := from; b_anchor := anchor;
+        b_items := msg_items texts ended (select_recent evs from (p_limit P)) |})
+  | [c] =>
+    ({| d_strategy := 1; d_cause := 3; d_resets := 0; d_ckpts := h |},
+     {| b_strategy := 1; b_from := from; b_anchor := anchor;
+        b_items := ISummary (ck_art c) (ck_to c)
+                   :: msg_items texts ended (select_recent_after evs from (ck_to c) (p_limit P)) |})
+  | _ =>
+    ({| d_strategy := 2; d_cause := 4; d_resets := 0; d_ckpts := h |},
+     {| b_strategy := 2; b_from := from; b_anchor := anchor;
+        b_items := map (fun c => ISummary (ck_art c) (ck_to c)) h
+                   ++ msg_items texts ended (select_recent_after evs from (max_to h) (p_limit P)) |})
+  end.
+
+(* the whole read side of a run's context: input through mr / full, checkpoints through comp / comp.idx, all as found *)
+Definition compile_cached (r : tail_count) (P : params) (texts : N -> N) (ks : list nat) (me : nat)
+           (mr full comp idx : cfile) (window : option (log * N)) (l : log) (a : N) : option (decision * bundle) :=
+  match input_fast r (p_limit P) ks mr full window l a with
+  | Some (evs, from) =>
+    Some (compile_core P texts evs
+            (hier_for_compile (p_fixed P) (p_max_refs P) full comp idx l from)
+            (latest_for_compile (p_fixed P) me full comp idx l from) from a)
+  | None => None
+  end.
+
+(* K2 for the compiler's look-ups: a checkpoint sidecar whose every line parses is the projection (absent: a full sidecar
+   whose every line parses is the truth stream); an index that loads is the projection *)
+Definition CompFaithfulC (l : log) (comp full : cfile) : Prop :=
+  match comp with
+  | Some ls => forall fs, all_good_c ls = Some fs -> fs = filter is_ckpt l
+  | None => match full with
+            | None => True
+            | Some fl => forall fs, all_good_c fl = Some fs -> fs = l
+            end
+  end.
+Definition IdxFaithful (l : log) (idx : cfile) : Prop :=
+  match idx with
+  | Some es => forall fs, idx_load es = Some fs -> fs = filter is_ckpt l
+  | None => True
+  end.
+
 (* ------------------------------------------------------------------ observation encoding + case (correspondence) *)
 (* what the harness observes of a compile through the caches as found: did it succeed, the recorded cut, the user
    messages of the bundle (by seq), the number of summary refs *)
